@@ -19,7 +19,8 @@ LEVEL_TEXT = ('Every ordered pair of the flag-compatible golden sources (all ~36
               'in one invocation; each successor\'s code file, per-file diagnostics and the exit status are compared with the solo run.'
               ' Every golden source also serves as failing predecessor of its own target (its first half plus an unknown instruction, leaving whatever that code generator keeps pending) in front of itself and of the smallest program of the same CPU.'
               ' Predecessors that queue export records are included.'
-              ' Added in the last round: nameless temporary labels, export entries behind the last code, ASSUME state of 78K4/SX20/OLMS-50/MN1613.')
+              ' Added in the last round: nameless temporary labels, export entries behind the last code, ASSUME state of 78K4/SX20/OLMS-50/MN1613.'
+              ' A probe of every corpus CPU that reports where each segment starts follows targets with other segment starts (thorough: every other probe).')
 LEVEL_NOTE = 'Trusted: the solo run of the same rebuilt binary as differential oracle; options are per invocation, so only sources with equal asflags are paired.'
 RULE = 'ordered file sequences; non-trivial = predecessor and successor differ'
 BOUNDS = {'quick': 'all ordered pairs + failing predecessors x all sources', 'thorough': '+ triples (failing, s1, s2) and (s1, s2, s3) on ring distance<=2'}
